@@ -293,8 +293,9 @@ class Env:
 
     @staticmethod
     def unit_of_partial(fn):
+        # the work unit among the arguments of the partial (`partial(task_f, md)` or `partial(_run_unit, task_f, md)`)
         try:
-            return int(fn.args[0]["id"])
+            return int(next(a for a in fn.args if isinstance(a, dict))["id"])
         except Exception:  # noqa: BLE001
             return BAD
 
